@@ -222,6 +222,9 @@ def history_independence(sink, seed, tier):  # noqa: C901
     for i in order:
         again = jsonable_answers(answers(classes[i][0], 'cxx'))
         sink.check(again == first[i], 'history/shuffled', 'answers do not depend on query order', dict(phase='shuffled', traits=classes[i][1]), lambda: (again, first[i]))
+    # (b2) transient churn while the caches still have room (a stale entry left behind by a collected
+    #      class would be hit by the next class allocated at the same address)
+    churn(sink, seed, harness.scale(2500, 50000, tier), 'c18prechurn', 60_000)
     # (c) > 4096 live classes fill the caches; then new classes (not cacheable) and old ones
     live = []
     for i in range(4300):
@@ -240,14 +243,18 @@ def history_independence(sink, seed, tier):  # noqa: C901
         sink.check(again == first[i], 'history/after-cache-full', 'answers are stable after the caches overflowed', dict(phase='cache-full', traits=classes[i][1]), lambda: (again, first[i]))
     del live
     gc.collect()
-    # (d) transient churn with measured address reuse
+    # (d) transient churn with measured address reuse (after the caches overflowed)
+    churn(sink, seed, harness.scale(4000, 100000, tier), 'c18churn', 30_000)
+    sink.extra['address_reuse'] = dict(reuses=sink.counters.get('address-reuses', 0), with_different_expected_answer=sink.counters.get('address-reuses-with-different-answer', 0))
+
+
+def churn(sink, seed, n_churn, tag, base):
     seen = {}
     reuses = 0
     reuses_diff = 0
-    n_churn = harness.scale(4000, 100000, tier)
     for i in range(n_churn):
-        r = random.Random(f'{seed}:c18churn:{i}')
-        cls, tr = make_class(r, 30_000 + i)
+        r = random.Random(f'{seed}:{tag}:{i}')
+        cls, tr = make_class(r, base + i)
         py = answers(cls, 'python')
         cx = answers(cls, 'cxx')
         key = id(cls)
@@ -257,16 +264,15 @@ def history_independence(sink, seed, tier):  # noqa: C901
             if seen[key] != sig:
                 reuses_diff += 1
                 stale = cx != py
-                sink.check(not stale, f'history/address-reuse/{_dev(tr)}', 'a class created at the address of a collected class is classified afresh', dict(phase='churn', traits=tr), lambda: (cx, py))
+                sink.check(not stale, f'history/address-reuse/{_dev(tr)}', 'a class created at the address of a collected class is classified afresh', dict(phase=tag, traits=tr), lambda: (cx, py))
         seen[key] = sig
         if cx != py:
             for name in FUNCS:
-                sink.check(cx[name] == py[name], f'classify/{name}/class/{_dev(tr)}', 'the C++ implementation and the pure-Python implementation agree', dict(traits=tr, phase='churn'), lambda: (cx[name], py[name]))
+                sink.check(cx[name] == py[name], f'classify/{name}/class/{_dev(tr)}', 'the C++ implementation and the pure-Python implementation agree', dict(traits=tr, phase=tag), lambda: (cx[name], py[name]))
         del cls
     sink.count('churn-classes', n_churn)
     sink.count('address-reuses', reuses)
     sink.count('address-reuses-with-different-answer', reuses_diff)
-    sink.extra['address_reuse'] = dict(reuses=reuses, with_different_expected_answer=reuses_diff)
 
 
 def sort_case(sink, seed, idx):
